@@ -28,4 +28,12 @@ func init() {
 		{Name: "new-panic", File: "cypher/frontend/literal.go", Old: "\t\ts.ctx.AddErrors(fmt.Errorf(\"invalid boolean literal: %s - %w\", text, err))", New: "\t\tpanic(fmt.Errorf(\"invalid boolean literal: %s - %w\", text, err))", Expect: "EnterOC_BooleanLiteral"},
 		{Name: "standalone-call-accepted", File: "cypher/frontend/context.go", Old: "func (s *BaseVisitor) EnterOC_StandaloneCall(c *parser.OC_StandaloneCallContext) {\n\ts.newUnsupportedRuleError(c)\n}", New: "func (s *BaseVisitor) EnterOC_StandaloneCall(c *parser.OC_StandaloneCallContext) {\n}", Expect: "C08-R3-result-assigned"},
 	}
+	mutations["C11"] = []Mutation{
+		{Name: "copy-drops-field", File: "cypher/models/cypher/model.go", Old: "\t\tOptional: s.Optional,\n", New: "", Expect: "C11-copy-field|Match.Optional"},
+		{Name: "copy-aliases-slice", File: "cypher/models/cypher/model.go", Old: "\t\tParts:           Copy(s.Parts),", New: "\t\tParts:           s.Parts,", Expect: "C11-copy-field|MultiPartQuery.Parts"},
+		{Name: "copy-case-removed", File: "cypher/models/cypher/copy.go", Old: "\tcase *Unwind:\n\t\treturn any(typedValue.copy()).(T)\n\n", New: "", Expect: "C11-copy-case|Unwind"},
+		{Name: "structural-skips-alias", File: "cypher/models/walk/walk_cypher.go", Old: "\t\tif typedNode.Alias != nil {\n\t\t\tnextCursor.AddBranches(typedNode.Alias)\n\t\t}\n", New: "", Expect: "C11-walk-structural-child|ProjectionItem.Alias"},
+		{Name: "generic-no-done-after-enter", File: "cypher/models/walk/walk.go", Old: "\t\t\tif visitor.Done() {\n\t\t\t\treturn nil\n\t\t\t}\n\t\t}\n\n\t\tif !nextNode.HasNext() {", New: "\t\t}\n\n\t\tif !nextNode.HasNext() {", Expect: "C11-generic-stop-gates"},
+		{Name: "nil-guard-removed", File: "cypher/models/walk/walk_cypher.go", Old: "func newCypherWalkCursor(node cypher.SyntaxNode) (*Cursor[cypher.SyntaxNode], error) {\n\tif isNilNode(node) {\n\t\treturn nil, fmt.Errorf(\"unable to negotiate cypher model type %T into a translation cursor\", node)\n\t}\n", New: "func newCypherWalkCursor(node cypher.SyntaxNode) (*Cursor[cypher.SyntaxNode], error) {\n", Expect: "C11-walk-nil-guard|newCypherWalkCursor"},
+	}
 }
